@@ -202,9 +202,8 @@ class TridonicDALIUSBDriver(DALIDriver):
         """Get next sequence number."""
         sn = self._next_sn
         if sn > 255:
-            sn = self._next_sn = 1
-        else:
-            self._next_sn += 1
+            sn = 1
+        self._next_sn = sn + 1
         return sn
 
 
